@@ -407,6 +407,13 @@ class ConcreteCtx:
             raise ReplayInvalid("assumption does not hold for the float witness")
 
     def uf(self, name, args, n_out, fresh=False):
+        if not fresh:
+            # congruent uninterpreted function: in the replay a fixed generic smooth function of the arguments
+            import math
+            s = 0.0
+            for i, a in enumerate(args):
+                s += (0.37 + 0.11 * i) * float(a)
+            return [self.dtype(math.sin(1.3 * j + 0.7 + s) + 0.25 * j) for j in range(n_out)]
         idx = self.uf_counter.get(name, 0)
         self.uf_counter[name] = idx + 1
         out = []
